@@ -10,6 +10,8 @@ all strings hex ("-" = empty, "none" = NULL / absent):
   flt <path|none>                                  -> "<k> p1 .. pk"
   mfp <path|none>                                  -> "<k> p1 .. pk"
   decrunch <header> <builtin 0|1> <filename|none>  -> "notpacked" | "internal" | "skipped" | "external a0 a1 .."
+  hist {<entry> <path> <ok|format|load|depack|early> <none|release|play|playrelease>}*
+                                                   -> per step "<loaded> <dirname|NULL> <basename|NULL>" after the load and after the follow-up
 -/
 open Xmp Xmp.PathSafe
 
@@ -53,6 +55,10 @@ def showOpt : Option Bytes → String
 def showList (l : List Bytes) : String :=
   String.intercalate " " (toString l.length :: l.map toHex)
 
+def showCtx (c : LoadCtx) : String :=
+  let f : Option Bytes → String := fun o => match o with | none => "NULL" | some b => toHex b
+  s!"{if c.loaded then 1 else 0} {f c.dir} {f c.base}"
+
 def handle (ws : List String) : Option String :=
   match ws with
   | ["copy", name, n] =>
@@ -81,6 +87,25 @@ def handle (ws : List String) : Option String :=
           | .internal => "internal"
           | .skippedExternal => "skipped"
           | .external argv => String.intercalate " " ("external" :: argv.map toHex))
+  | "hist" :: rest =>
+    -- hist {<entry> <path|none> <outcome> <after>}* : context state after every load and after every follow-up action
+    let rec go (c : LoadCtx) (ws : List String) (acc : List String) (fuel : Nat) : List String :=
+      match fuel, ws with
+      | fuel + 1, e :: p :: o :: a :: more =>
+        let path := parseHex p
+        let entry : Entry := match e with
+          | "path" => .path path | "file" => .file | "mem" => .memory | _ => .callbacks
+        let out : Outcome := match o with
+          | "ok" => .ok | "format" => .formatError | "load" => .loadError | "depack" => .depackError | _ => .refusedEarly
+        let c1 := histStep c (.load entry out)
+        let c2 := match a with
+          | "release" => histStep c1 .release
+          | "playrelease" => histStep (histStep c1 .play) .release
+          | "play" => histStep c1 .play
+          | _ => c1
+        go c2 more (acc ++ [showCtx c1, showCtx c2]) fuel
+      | _, _ => acc
+    some (String.intercalate " " (go {} rest [] rest.length))
   | _ => none
 
 partial def loop (h : IO.FS.Stream) (out : IO.FS.Stream) : IO Unit := do
